@@ -87,14 +87,17 @@ def main():
         res['caught'] = res['check_on_changed']['exit'] == 1 and any(l.startswith('VIOLATION') for l in lines)
         dst = os.path.join(VERIF, 'seeded', pid, var)
         os.makedirs(dst, exist_ok=True)
-        shutil.copy(os.path.join(src, 'patch.diff'), dst)
-        shutil.copy(demo, dst)
+        if os.path.abspath(dst) != os.path.abspath(src):
+            shutil.copy(os.path.join(src, 'patch.diff'), dst)
+            shutil.copy(demo, dst)
         meta = {}
         if os.path.exists(os.path.join(src, 'meta.json')):
             try:
                 meta = json.load(open(os.path.join(src, 'meta.json')))
             except ValueError:
                 meta = {'raw': open(os.path.join(src, 'meta.json')).read()[:2000]}
+        if 'evaluation' in meta and os.path.abspath(dst) == os.path.abspath(src):
+            meta.setdefault('earlier_evaluations', []).append(meta['evaluation'])
         meta['evaluation'] = res
         json.dump(meta, open(os.path.join(dst, 'meta.json'), 'w'), indent=1)
     finally:
